@@ -86,7 +86,7 @@ pub fn observe_analyze(arr: &Arrangement, chunks: &[String]) -> Result<Observed,
     let texts = arr.texts(chunks);
     let mut libs = vec![];
     for (i, t) in texts.iter().enumerate() {
-        let fid = FileId::from_string(&format!("f{}.st", i));
+        let fid = FileId::from_string(&crate::drive::set_file_name(i));
         match crate::panicx::catch(|| parse_program(t, &fid, &ParseOptions::default())) {
             Ok(Ok(l)) => libs.push(l),
             Ok(Err(_)) => return Ok(Observed { ok: false, codes: vec!["P0002".into()], locs: vec![], parse_failed: true }),
@@ -113,7 +113,7 @@ pub fn observe_project(arr: &Arrangement, chunks: &[String]) -> Result<(bool, Ve
     crate::panicx::catch(|| {
         let mut p = FileBackedProject::new();
         for (i, t) in texts.iter().enumerate() {
-            p.change_text_document(&FileId::from_string(&format!("f{}.st", i)), t.clone());
+            p.change_text_document(&FileId::from_string(&crate::drive::set_file_name(i)), t.clone());
         }
         match p.semantic() {
             Ok(()) => (true, vec![]),
@@ -282,7 +282,7 @@ fn check_tape(tape: &[u8], gates: &Gates, stats: &mut Stats, counting: bool, cli
             let texts = arr.texts(&chunks);
             let mut paths = vec![];
             for (i, tx) in texts.iter().enumerate() {
-                paths.push(dir.write(&format!("f{}.st", i), tx.as_bytes()).to_string_lossy().to_string());
+                paths.push(dir.write(&crate::drive::set_file_name(i), tx.as_bytes()).to_string_lossy().to_string());
             }
             for rep in 0..3 {
                 let mut args = vec!["check".to_string()];
